@@ -15,8 +15,24 @@ def _text(decls, assertions):
     return "\n".join(list(decls) + ["(assert %s)" % a for a in assertions]) + "\n"
 
 
+_CTX = [None, 0]
+
+
+def _ctx():
+    """One z3 context per process, renewed every 300 queries: creating (and never freeing) a context per query costs
+    ~0.3 s each once a few hundred are alive; every from_string call has its own parser scope, so reuse is safe."""
+    import gc
+    if _CTX[0] is None or _CTX[1] >= 300:
+        _CTX[0] = None
+        gc.collect()
+        _CTX[0] = z3.Context()
+        _CTX[1] = 0
+    _CTX[1] += 1
+    return _CTX[0]
+
+
 def z3_check(decls, assertions, timeout_ms=5000, want_model=True):
-    ctx = z3.Context()
+    ctx = _ctx()
     s = z3.Solver(ctx=ctx)
     s.set("timeout", timeout_ms)
     try:
@@ -102,7 +118,7 @@ def any_equivalent_pair(decls, terms, extra=(), timeout_ms=300, max_n=45):
     if len(terms) + len(extra) > max_n:
         return False
     try:
-        ctx = z3.Context()
+        ctx = _ctx()
         fs = z3.parse_smt2_string("\n".join(list(decls) + ["(assert %s)" % t for t in terms + extra]), ctx=ctx)
     except z3.Z3Exception:
         return False
